@@ -242,6 +242,27 @@ class CustomStrikethrough(gfm_elements.Strikethrough):
         return "strikethrough" if snake_case else "Strikethrough"
 
 
+class CustomAlert(gfm_elements.Alert):
+    """
+    GFM alert whose header (`> [!NOTE]`) has to stand on one line. Marko's pattern allows any
+    whitespace, including a newline, between the `>` and the `[!NOTE]`, so an empty quote line
+    followed by a paragraph line `[!NOTE]` was read as an alert.
+    """
+
+    @override
+    @classmethod
+    def match(cls, source: Source) -> re.Match[str] | None:
+        return source.expect_re(
+            r"(?im) {,3}>[ \t]*\[\!(WARNING|NOTE|TIP|IMPORTANT|CAUTION)\][ \t]*$"
+        )
+
+    @override
+    @classmethod
+    def get_type(cls, snake_case: bool = False) -> str:
+        # Ensure renderer dispatch uses "alert" not "custom_alert".
+        return "alert" if snake_case else "Alert"
+
+
 class CustomFencedCode(block.FencedCode):
     """
     Extended FencedCode that preserves the fence character and length.
@@ -914,6 +935,8 @@ def flowmark_markdown(
             for e in GFM.elements:
                 if e is gfm_elements.Strikethrough:
                     e = CustomStrikethrough
+                elif e is gfm_elements.Alert:
+                    e = CustomAlert
                 assert (
                     e not in custom_parser.block_elements and e not in custom_parser.inline_elements
                 )
